@@ -322,6 +322,15 @@ func corpusScale(c *vrep.Ctx, prop string) {
 			}
 		}
 	}
+	if c.Param("docs", "") == "gnu" {
+		// the documents of the GNU license families (texts with lesser / library / general / affero)
+		docs = nil
+		for _, d := range vCorpusFiles() {
+			if strings.Contains(d.Key, "GPL") && len(d.Bytes) < c.Pick(9000, 1<<20) {
+				docs = append(docs, d)
+			}
+		}
+	}
 	fams := strings.Split(c.Param("families", "exact,edit1,periodic,scatter,truncate,concat,scenario,edit2"), ",")
 	c.R.Rule = fmt.Sprintf("corpus scale at T=%v: %d documents x edit-script families %v (single edits at 24 evenly spaced positions x {delete, substitute OOV, substitute vocabulary word, insert OOV}; edit pairs at 6 positions; periodic noise every 5..14 words; scattered irregular noise of 8-20%% density (low-discrepancy positions, mixed edit kinds); truncations 60-90%% from either end; pool concatenations; scenario files); oracle %s; non-trivial = distinct generated inputs for which Match returned at least one non-Copyright match", t, len(docs), fams, prop)
 	c.Bound("documents", len(docs))
